@@ -356,7 +356,56 @@ def judge(seed):
     return None, nontrivial
 
 
+def judge_radii_option(seed):
+    """the covalent_radii option: with a larger radius for one element, pairs that are further apart than the default threshold are
+    bonded — also across cell faces (long bonds to heavy or hypervalent atoms are entered this way)"""
+    import random
+    from chmpy.core.element import Element
+    from chmpy.crystal import AsymmetricUnit, Crystal, SpaceGroup, UnitCell
+    rng = random.Random(seed)
+    z = rng.choice([9, 8, 7])
+    cov = Element[z].cov
+    d = 2 * cov + 0.4 + rng.uniform(0.15, 0.3)                 # not bonded by default ...
+    big = 0.5 * (d - 0.4) + rng.uniform(0.05, 0.15)            # ... bonded with this radius
+    uc = UnitCell.monoclinic(rng.uniform(7, 9), rng.uniform(7, 9), rng.uniform(8, 10), math.radians(rng.uniform(95, 115)))
+    for _ in range(50):
+        o = np.array([rng.uniform(-0.2, 1.2) for _ in range(3)]) @ np.asarray(uc.direct)
+        v = np.array([rng.gauss(0, 1) for _ in range(3)])
+        v *= d / np.linalg.norm(v)
+        cart = np.array([o, o + v])
+        c = Crystal(uc, SpaceGroup(14), AsymmetricUnit([Element[z], Element[z]], uc.to_fractional(cart)))
+        P = np.asarray(c.slab(bounds=((-1, -1, -1), (1, 1, 1)))["cart_pos"])
+        from scipy.spatial import cKDTree
+        pairs = cKDTree(P).query_pairs(2 * big + 0.4 + 0.4)
+        dd = sorted(np.linalg.norm(P[i] - P[j]) for i, j in pairs)
+        if all(abs(x - d) < 1e-6 or x > 2 * big + 0.4 + 0.3 for x in dd):
+            break
+    else:
+        return None
+    c = Crystal(uc, SpaceGroup(14), AsymmetricUnit([Element[z], Element[z]], uc.to_fractional(cart)))
+    try:
+        mols = c.unit_cell_molecules(covalent_radii={z: big})
+    except Exception as ex:  # noqa
+        return f"sg 14 stretched {Element[z].symbol}2: unit_cell_molecules(covalent_radii={{{z}: {big:.3f}}}) raised {type(ex).__name__}: {ex}"
+    if len(mols) != 4 or sorted(len(m) for m in mols) != [2, 2, 2, 2]:
+        return (f"sg 14 stretched {Element[z].symbol}2 (bond {d:.3f} A): with covalent_radii={{{z}: {big:.3f}}} the pairs are within bonding distance "
+                f"({2 * big + 0.4:.3f} A) but unit_cell_molecules returns molecules of sizes {sorted(len(m) for m in mols)} instead of four pairs")
+    for m in mols:
+        if abs(np.linalg.norm(m.positions[0] - m.positions[1]) - d) > 1e-6:
+            return f"sg 14 stretched {Element[z].symbol}2: a molecule's two atoms are {np.linalg.norm(m.positions[0] - m.positions[1]):.3f} A apart, not {d:.3f}"
+    return None
+
+
 def search(ctx, budget):
+    for _ in range(6 if budget == "quick" else 60):
+        seed = ctx.rng.randrange(1 << 30)
+        ctx.case({"seed": seed, "option": "covalent_radii"}, nontrivial=True, key="opt" + str(seed))
+        try:
+            r = judge_radii_option(seed)
+        except Exception as ex:  # noqa
+            r = f"sg 14 covalent_radii option: raised {type(ex).__name__}: {ex}"
+        if r:
+            ctx.fail("C04:covalent_radii option", r, {"seed": seed, "option": True})
     n = 160 if budget == "quick" else 1500
     for _ in range(n):
         seed = ctx.rng.randrange(1 << 30)
@@ -372,4 +421,6 @@ def search(ctx, budget):
 
 
 def replay(ctx, obj):
+    if obj["input"].get("option"):
+        return judge_radii_option(obj["input"]["seed"])
     return judge(obj["input"]["seed"])[0]
